@@ -24,7 +24,9 @@ from .. import core, molgen, wire
 LEVEL = 'translation_validation'
 LEVEL_TEXT = ('The deleted-atom closure (`_get_deleted`) is proved exact against a declarative reachability spec for every graph, '
               'every match and every set-iteration order, and the frame / named-atom / fresh-number clauses are proved for the '
-              'executable model of `_patcher`; the model is a hand transcription tied to the code by differential testing on '
+              'executable model of `_patcher`; `Graph.union` is proved to give disjoint isomorphic copies with the code\'s exact renumbering, and the '
+              'exhaustive-mode queue (`one_shot=False`: FIFO, `seen` strings, `polymerise_limit`) is proved to terminate and to report '
+              'exactly the reachable reactions up to the de-duplication key, each key once, over an abstract step system; the model is a hand transcription tied to the code by differential testing on '
               'corpus x built-in and synthetic templates, and the remaining clauses (valence validity, one product per match, '
               'numbering / order independence, kept / overridden stereo, exhaustive mode, aromaticity repair) are validated on the real outputs by a property-level oracle. '
               'Translation validation is the honest level: the matcher, kekule/thiele and the stereo translation are not in the model.')
@@ -36,7 +38,9 @@ RULE = ('one case = (template, molecule in a concrete numbering and dict inserti
         'chython.reactor.deprotection, every Reactor of chython.reactor.reactions, and synthetic templates covering each patcher '
         'branch (any-atom reuse, existing atom re-typed, new atoms with/without hydrogens, Element replacement, deleted atoms with '
         'attached/detached fragments, masked atoms, delete_atoms=False, bond order change / creation / removal, multi-reactant '
-        'with colliding numbers, rejected templates); molecules = the rules\' own test molecules, corpus sample, handmade, '
+        'with colliding numbers, rejected templates, charge / radical / isotope of a pattern atom x any-atom / element / molecule '
+        'replacement x requested value incl. zero; exhaustive mode on templates that fire several times: poly-halides, bis-protected '
+        'molecules, diacid + diol, salts); molecules = the rules\' own test molecules, corpus sample, handmade, '
         'exhaustive small graphs for `_get_deleted`; each also after random renumbering; a case is non-trivial when the match '
         'exists and the template changes, adds or deletes at least one atom or bond; distinct by the full request line')
 TRUSTED = ['template / molecule wire encoders and canonicalisers of harness/props/c16.py and harness/wire.py',
@@ -47,12 +51,12 @@ ASSUMPTIONS = ['molecule adjacency is symmetric and closed (Graph invariant; hyp
                'stereo labels / coordinates are not compared; `fix_aromatic_rings=False` for the exact stream',
                'template atom numbers of different reactant patterns are distinct (reduce(or_, patterns) would renumber them)']
 HAS_DRIVER = True
-EXTRA_MODULES = ['Model.C16Patcher', 'Spec.C16Deleted']
+EXTRA_MODULES = ['Model.C16Patcher', 'Model.C16Worklist', 'Spec.C16Deleted']
 FINDINGS_MODULE = 'ChythonModel.Findings.C16'
 
 PROGRAMS = ['Transformer.__call__', 'BaseReactor.__init__ (_to_delete, replacement checks)', 'BaseReactor._get_deleted',
-            'BaseReactor._patcher', 'Reactor._single_stage', 'Reactor.__call__', 'fix_mapping_overlap', 'Graph.remap',
-            'Graph.union(remap=True)', 'reactor.deprotection.*', 'reactor.reactions.*']
+            'BaseReactor._patcher', 'Reactor._single_stage', 'Reactor.__call__ (one-shot; exhaustive queue / seen / polymerise_limit)',
+            'fix_mapping_overlap', 'Graph.remap', 'Graph.union (remap=True and remap=False)', 'reactor.deprotection.*', 'reactor.reactions.*']
 
 
 def generate(ctx):
@@ -834,6 +838,144 @@ def add_overlap_case(cases, tag, mols):
         req += wire.mol_to_ints(m)
     cases.add('overlap', tag, 'overlap ' + ' '.join(map(str, req)), exp, nontrivial=any(orders))
     return fixed
+
+
+def add_union_cases(cases, ctx, pool):
+    """K `union2`: the real `a.union(b, remap=flag)` (both flags; `a | b` is flag=True) vs the model `unionR`, on pairs with
+    fully colliding numbers (as parsed), partially colliding, shuffled and disjoint numbers; the MappingError branch included"""
+    rng = ctx.rng
+    pairs = []
+    for _ in range(40 if ctx.quick else 400):
+        (ta, a), (tb, b) = rng.choice(pool), rng.choice(pool)
+        a, b = a.copy(), b.copy()
+        mode = rng.choice(['collide', 'collide', 'partial', 'shuffled', 'disjoint', 'disjoint-below', 'gap'])
+        if mode == 'partial':
+            sh = max(len(a) - rng.randint(1, 2), 0)
+            b.remap({n: n + sh for n in list(b)[::-1]} if sh else {})
+        elif mode == 'shuffled':
+            a, b = molgen.renumber(rng, a)[0], molgen.renumber(rng, b)[0]
+        elif mode == 'disjoint':
+            sh = max(a) + rng.randint(0, 3)
+            b.remap({n: n + sh for n in list(b)})
+        elif mode == 'disjoint-below':
+            sh = max(b) + 1
+            a.remap({n: n + sh for n in list(a)})
+        elif mode == 'gap':      # sparse numbers: max(a) is not len(a)
+            a.remap({n: 3 * n + 7 for n in list(a)})
+            b.remap({n: 2 * n for n in list(b)})
+        pairs.append((f'{ta}|{tb} {mode}', a, b))
+    for tag, a, b in pairs:
+        for flag in (1, 0):
+            try:
+                exp = 'ok ' + render_mol(a.union(b, remap=bool(flag)))
+            except Exception as e:
+                exp = err_text(e)
+            ctx.dist('union:' + ('ok' if exp.startswith('ok') else exp))
+            line = 'union2 ' + ' '.join(map(str, [flag] + wire.mol_to_ints(a) + wire.mol_to_ints(b)))
+            cases.add('union', f'{tag} remap={flag}', line, exp, nontrivial=bool(set(a) & set(b)) or not flag)
+
+
+# exhaustive mode (`one_shot=False`): templates that can fire several times, (name, patterns, products, molecules, limits)
+WORKLIST_CASES = [
+    ('halide-hydrolysis', ['[C;z1:1][Cl,Br;D1:2]'], ['[A:1][O:2]'],
+     [['BrCCCBr'], ['BrCC(Br)CBr'], ['ClCCl', 'CCO'], ['BrCCBr', 'ClCCCl'], ['CCBr', 'CCBr'], ['CCO']], (0, 1, 2, 3)),
+    ('aryl-halide', ['[C;a:1][Cl,Br;D1:2]'], ['[A:1][O:2]'], [['Brc1ccc(Br)cc1'], ['Brc1ccc(Cl)cc1', 'c1ccccc1Cl']], (2, 3)),
+    ('methyl-ester-cleave', ['[C;z2:1][O:2][C;D1]'], ['[A:1][A:2]'], [['COC(=O)CCC(=O)OC'], ['COC(=O)c1ccc(cc1)C(=O)OC', 'CO']], (1, 2, 3)),
+    ('methyl-ether-cleave', ['[C;z1:1][O:2][C;D1]'], ['[A:1][A:2]'], [['COCCOC'], ['COCC(OC)COC']], (2, 3)),
+    ('bis-acetate', ['[C:1][O:2][C](=[O])[C;D1]'], ['[A:1][A:2]'], [['CC(=O)OCCOC(C)=O'], ['CC(=O)OCC(OC(C)=O)COC(C)=O']], (2, 3)),
+    ('bis-boc', ['[N:1][C](=[O])[O][C]([C;D1])([C;D1])[C;D1]'], ['[A:1]'], [['CC(C)(C)OC(=O)NCCNC(=O)OC(C)(C)C']], (1, 2, 3)),
+    ('bis-tms', ['[O:1][Si]([C;D1])([C;D1])[C;D1]'], ['[A:1]'], [['C[Si](C)(C)OCCO[Si](C)(C)C', 'CCO']], (2, 3)),
+    ('carbonyl-reduce', ['[C:1]=[O:2]'], ['[A:1]-[A:2]'], [['O=CCC=O'], ['O=CCCC(C)=O', 'CC=O']], (2, 3)),
+    ('ester', ['[C:1](=[O:2])[O;D1:3]', '[C;z1:4][O;D1:5]'], ['[A:1](=[A:2])[A:5][A:4]'],
+     [['OC(=O)CCC(=O)O', 'OCCO'], ['CC(=O)O', 'OCCO'], ['OC(=O)CCC(=O)O', 'CCO', 'CO']], (1, 2)),
+    ('alkylation-salt', ['[C;z1:1][Cl,Br;D1:2]', '[N;D1:3][C:4]'], ['[A:1][A:3][A:4]', '[A-:2]'],
+     [['BrCCCBr', 'CN'], ['CCBr', 'NCCN'], ['CCBr', 'CN', '[Na+]']], (1, 2)),
+    ('ammonium-acylation', ['[N;+:1][C:2]', '[C:3](=[O:4])[Cl;D1:5]'], ['[A:2][A:1][A:3]=[A:4]', '[A-:5]'],
+     [['CC[NH3+]', 'CC(Cl)=O', 'C[NH2+]C'], ['C[NH2+]C', 'ClC(=O)CCC(Cl)=O']], (2,)),
+]
+
+
+def step_system(R, mols, limit, cap_items=400):
+    """the un-deduplicated step system of the exhaustive mode, computed with the real `_single_stage`, `ReactionContainer`,
+    `contract_ions`, `str` and `fix_mapping_overlap`: a tree of queue items (chosen, ignored, depth); per item the reactions it
+    yields with their `str`, the 'ambiguous' flag and the items the code would append. No queue, no `seen`, no depth test —
+    those are the model's part. Returns (init ids, rows, key ids) or None when the tree is too large."""
+    from chython import ReactionContainer
+    from chython.reactor.reactor import fix_mapping_overlap
+    from itertools import permutations, combinations
+    k = len(R._patterns)
+    structures = fix_mapping_overlap([m.copy() for m in mols])
+    n = len(structures)
+    items, init, rows, keyid = [], [], {}, {}
+    for ch in permutations(range(n), k):
+        init.append(len(items))
+        items.append(([structures[x] for x in ch], [structures[x] for x in range(n) if x not in ch], 0))
+    levels = max(limit, 1)
+    rid = 0
+    i = 0
+    while i < len(items):
+        chosen, ignored, depth = items[i]
+        if depth < levels:
+            row = []
+            for new in R._single_stage(chosen, {x for m in ignored for x in m}):
+                r = ReactionContainer([x.copy() for x in structures], new + [x.copy() for x in ignored])
+                stop = False
+                if len(new) > 1:
+                    r.contract_ions()
+                    stop = len(r.products) != len(ignored) + len(R._products_atoms)
+                key = keyid.setdefault(str(r), len(keyid) + 1)
+                rid += 1
+                ids = []
+                if not stop:
+                    prod = r.products
+                    if k == 1:
+                        succ = [([prod[j]], [*prod[:j], *prod[j + 1:]]) for j in range(len(prod))]
+                    else:
+                        succ = [(list(ch), [*prod[:j], *prod[j + 1:]]) for chp in combinations(chosen, k - 1)
+                                for j in range(len(prod)) for ch in permutations(fix_mapping_overlap((prod[j], *chp)), k)]
+                    for c, ig in succ:
+                        ids.append(len(items))
+                        items.append((c, ig, depth + 1))
+                row.append((rid, key, int(stop), ids))
+            rows[i] = row
+        i += 1
+        if len(items) > cap_items:
+            return None
+    return init, rows, keyid
+
+
+def add_worklist_case(cases, name, patterns, products, kw, mols, limit, tag):
+    """K `worklist`: the sequence of `str(r)` the real exhaustive `Reactor.__call__` yields vs the model's FIFO worklist (and
+    its level-by-level form) run over the step system recorded by `step_system`"""
+    from chython import Reactor
+    ctx = cases.ctx
+    kw2 = {k: v for k, v in dict(kw).items() if k in ('delete_atoms', 'automorphism_filter')}
+    try:
+        R = Reactor(patterns, products, one_shot=False, polymerise_limit=limit, fix_aromatic_rings=False, **kw2)
+        real = [str(r) for r in itertools.islice(R(*[m.copy() for m in mols]), 400)]
+        sysd = step_system(R, mols, limit)
+    except Exception as e:
+        ctx.dist('worklist-raises:' + type(e).__name__)
+        return
+    if sysd is None or len(real) >= 400:
+        ctx.dist('worklist-too-large')
+        return
+    init, rows, keyid = sysd
+    ks = ' '.join(str(keyid.get(s_, 900000 + j)) for j, s_ in enumerate(real))
+    req = [limit, len(init)] + init + [len(rows)]
+    nstop = 0
+    for it, row in rows.items():
+        req += [it, len(row)]
+        for rid, key, stop, ids in row:
+            req += [rid, key, stop, len(ids)] + ids
+            nstop += stop
+    nreact = sum(len(r) for r in rows.values())
+    ctx.dist('worklist-yielded', len(real))
+    ctx.dist('worklist-deduplicated', nreact > len(real))
+    if nstop:
+        ctx.dist('worklist-ambiguous-stop')
+    cases.add('worklist', f'{name} on {tag} limit {limit}', 'worklist ' + ' '.join(map(str, req)), f'ok {ks} | {ks}',
+              nontrivial=len(real) > 1, replay=reactor_replay(name, patterns, products, dict(kw2, one_shot=False, polymerise_limit=limit), mols))
 
 
 def add_reactor_cases(cases, name, patterns, products, kw, mols, tag, limit=4):
@@ -1800,6 +1942,24 @@ def correspond(ctx):
             ctx.count(('exhaustive', name, tag))
             for cl, det in exhaustive_clauses(pats, prods, kw, ms):
                 ctx.fail(f'C16/{cl}', f'{name} on {tag}: {det}', reactor_replay(name, pats, prods, kw, ms))
+
+    # K: Graph.union(remap=True/False) and the exhaustive-mode worklist
+    upool = [(t, m) for t, m in mols if 0 < len(m) <= 14][:80] + [(b, m) for b, m in blocks() if len(m) <= 12]
+    add_union_cases(cases, ctx, upool)
+    for name, ps, rs, msets, limits in WORKLIST_CASES:
+        try:
+            pats, prods = [_sm(p) for p in ps], [parse_repl(x) for x in rs]
+        except Exception as e:
+            ctx.broke('correspondence', 'synthetic-template-parse', f'{name}: {type(e).__name__}: {e}')
+            continue
+        for mset in msets:
+            for lim in (limits if not ctx.quick else limits[-2:]):
+                add_worklist_case(cases, 'worklist.' + name, pats, prods, {}, [smiles(x) for x in mset], lim, '+'.join(mset))
+    for name, pats, prods, kw, builtin in rxs:
+        sets = reactor_inputs(ctx, pats, 0)
+        for tag, ms in sets[:1] if ctx.quick else sets[:3]:
+            if sum(len(m) for m in ms) <= 36:
+                add_worklist_case(cases, name, pats, prods, kw, ms, 2, tag)
 
     # single-pattern templates as exhaustive Reactors on SEVERAL matching molecules (each synthetic Transformer template is one)
     single = [('synthetic.' + n, [q], [r], kw) for n, q, r, kw in synth if kw.get('delete_atoms', True) is True]
